@@ -54,6 +54,8 @@ class NotOrMacro(Macro):
         prevs is the negative disjunction
         """
         goal, pt0 = args[0], prevs[0]
+        if not goal.is_not() or not pt0.prop.is_not():
+            raise VeriTException("not_or", "goal and premise should be negations")
         disjs = pt0.prop.arg.strip_disj()
         for d in disjs:
             if d == goal.arg:
